@@ -135,6 +135,9 @@ unsafe impl GlobalAlloc for VAlloc {
                         let n = COUNT.fetch_add(1, SeqCst);
                         if n == FAIL_K.load(SeqCst) {
                             FAILED.fetch_add(1, SeqCst);
+                            // tell the supervisor (the process may not survive to report it)
+                            let note = b"{\"refusednote\":1}\n";
+                            libc::write(1, note.as_ptr() as *const _, note.len());
                             return std::ptr::null_mut();
                         }
                     }
